@@ -221,7 +221,7 @@ func asSlice(v any) slice {
 }
 
 func (st store) elemPath(sl slice, x int) []int { return append(append([]int{}, sl.path...), sl.off+x) }
-func (st store) elem(sl slice, x int) any      { return st.read(sl.obj, st.elemPath(sl, x)) }
+func (st store) elem(sl slice, x int) any       { return st.read(sl.obj, st.elemPath(sl, x)) }
 
 type eval struct {
 	ok, addr bool
